@@ -8,6 +8,7 @@ package main
 import (
 	"encoding/hex"
 	"fmt"
+	"math"
 	"sort"
 	"strconv"
 	"strings"
@@ -116,7 +117,7 @@ func (c *Ctx) observeList(l, twin string, obs string) {
 
 // listMutators: every way the content of a list can change, including through a nested handle.
 var listMutators = []string{"settf-samekind", "add", "insert0", "insertmid", "replace0", "replacelast", "delete0", "deletelast", "pop", "clear", "reverse",
-	"settf-leaf", "settf-beyond", "unsettf", "sort", "inner-add", "inner-set", "settf-deep", "add-bool", "replace-samekind", "none"}
+	"settf-leaf", "settf-beyond", "unsettf", "sort", "inner-add", "inner-set", "settf-deep", "add-bool", "replace-samekind", "rejected-batch", "rejected-insert", "none"}
 
 func (c *Ctx) mutateList(l, inner, innerO string, mut string) {
 	m := c.M
@@ -146,6 +147,12 @@ func (c *Ctx) mutateList(l, inner, innerO string, mut string) {
 		}
 	case "pop":
 		m.Pop(l)
+	case "rejected-batch":
+		// a call that panics on its last value: whatever it leaves behind, every observer has to cope with
+		m.Add(l, gvInt(40), gvStr("ok"), gvUnsupported(0))
+	case "rejected-insert":
+		m.Insert(l, n/2, gvUnsupported(1))
+		m.Replace(l, n+5, gvInt(1))
 	case "clear":
 		m.Clear(l)
 	case "reverse":
@@ -222,8 +229,9 @@ func (c *Ctx) omoList(prop string) {
 			} else {
 				inner = m.NewList(gvInt(1), gvInt(2))
 				innerO = m.NewObject(gvStr("a"), gvInt(1), gvStr("s"), gvStr("\"q\\"))
-				l = m.NewList(gvInt(1), gvStr("x\n"), gvFloat(2), m.RefGV(inner), m.RefGV(innerO), gvBool(true), gvNil(), gvInt(2))
-				twin = m.NewList(gvInt(1), gvStr("x\n"), gvFloat(2), m.RefGV(m.NewList(gvInt(1), gvInt(2))), m.RefGV(m.NewObject(gvStr("a"), gvInt(1), gvStr("s"), gvStr("\"q\\"))), gvBool(true), gvNil(), gvInt(2))
+				negZero := gvFloat(math.Copysign(0, -1)) // the sign of zero is data: an observer must not normalise it
+				l = m.NewList(gvInt(1), gvStr("x\n"), gvFloat(2), m.RefGV(inner), m.RefGV(innerO), gvBool(true), gvNil(), gvInt(2), negZero)
+				twin = m.NewList(gvInt(1), gvStr("x\n"), gvFloat(2), m.RefGV(m.NewList(gvInt(1), gvInt(2))), m.RefGV(m.NewObject(gvStr("a"), gvInt(1), gvStr("s"), gvStr("\"q\\"))), gvBool(true), gvNil(), gvInt(2), negZero)
 			}
 			c.observeList(l, twin, obs)
 			c.mutateList(l, inner, innerO, mut)
@@ -416,11 +424,14 @@ func (c *Ctx) observeObj(o, twin string, obs string) {
 	}
 }
 
-var objMutators = []string{"set-new", "set-samekind", "set-otherkind", "set-bool-flip", "set-empty-string", "unset", "unset-then-set", "clear", "clear-refill", "settf", "unsettf", "inner-add", "inner-set", "none"}
+var objMutators = []string{"set-new", "set-samekind", "set-otherkind", "set-bool-flip", "set-empty-string", "unset", "unset-then-set", "clear", "clear-refill", "settf", "unsettf", "inner-add", "inner-set", "rejected-set", "none"}
 
 func (c *Ctx) mutateObj(o, inner, innerO string, mut string) {
 	m := c.M
 	switch mut {
+	case "rejected-set":
+		m.OSet(o, gvStr("fresh"), gvInt(1), gvStr("bad"), gvUnsupported(0))
+		m.OSet(o, gvStr("odd"), gvInt(1), gvStr("dangling"))
 	case "set-new":
 		m.OSet(o, gvStr("new"), gvInt(5))
 	case "set-samekind":
@@ -1096,4 +1107,27 @@ func (c *Ctx) rawBytes(prop string) {
 		})
 	}
 	c.St.Eval("raw-bytes:"+prop, true)
+}
+
+// nilArguments: a nil interface where a List / Object is expected — Equals answers false, Merge and Concat panic
+// (a method call on nil) and leave everything as it was; in particular they do not hand back the receiver.
+func (c *Ctx) nilArguments() {
+	m := c.M
+	m.Case("nil-arguments")
+	l := m.NewList(gvInt(1), m.RefGV(m.NewList()))
+	o := m.NewObject(gvStr("a"), gvInt(1), gvStr("l"), m.RefGV(l))
+	e := m.NewObject()
+	for _, t := range []string{o, e} {
+		if r := m.MergeNil(t); r != "" && r != "n" {
+			m.OSet(r, gvStr("leak"), gvInt(1))
+		}
+		m.EqualsNil(t)
+	}
+	for _, t := range []string{l, m.NewList()} {
+		if r := m.ConcatNil(t); r != "" && r != "n" {
+			m.Add(r, gvStr("leak"))
+		}
+		m.EqualsNil(t)
+	}
+	c.St.Eval("nil-arguments", true)
 }
